@@ -252,6 +252,14 @@ func genSimpleSet(r *Rng) clip.Paths64 {
 	if r.Chance(0.2) {
 		out[0] = decorateDup(r, out[0])
 	}
+	if len(out) > 1 && r.Chance(0.5) {
+		// the order in which the rings of one polygon are listed is immaterial (a hole may come
+		// before its outer boundary)
+		for i := len(out) - 1; i > 0; i-- {
+			j := r.Intn(i + 1)
+			out[i], out[j] = out[j], out[i]
+		}
+	}
 	return out
 }
 func decorateDup(r *Rng, p clip.Path64) clip.Path64 {
@@ -290,7 +298,7 @@ func init() {
 	reg := func(name, prop, stream, rule string, gen func(r *Rng) offCase) {
 		stages[name] = func(ctx *Ctx, cnt func(q, t int) int, replay string) Result {
 			col := NewCollector(prop, "search", rule)
-			parallelFor(ctx, cnt(2500, 150000), true, col, func(o *Oracle, i int) {
+			parallelFor(ctx, cnt(12000, 150000), true, col, func(o *Oracle, i int) {
 				r := NewRng(ctx.Seed, stream, i)
 				c := gen(r)
 				ok, kind, detail, resp := c05Check(o, c)
